@@ -26,8 +26,11 @@ PnL(W, v, p, opt) ==
                    [] opt = "spot"   -> OutputPrice(vm.cfg.D, p.dir, Abs(p.size), vm.st.x, vm.st.y)
                    [] opt = "oracle" -> LET op == OraclePrice(W, v)
                                         IN IF Bad(op) THEN FAIL
-                                           ELSE (op * Abs(p.size)) \div W.eng.cfg.D
+                                           ELSE LET m == SafeMul(op, Abs(p.size))
+                                                IN IF Bad(m) THEN m ELSE m \div W.eng.cfg.D
        IN IF Bad(n) THEN [ok |-> FALSE, notional |-> 0, pnl |-> 0, over |-> n = OVER]
+          ELSE IF n > AmtCap \/ p.notional > AmtCap
+          THEN [ok |-> FALSE, notional |-> 0, pnl |-> 0, over |-> TRUE]
           ELSE [ok |-> TRUE, notional |-> n, over |-> FALSE,
                 pnl |-> IF p.dir = "add" THEN n - p.notional ELSE p.notional - n]
 
@@ -56,11 +59,15 @@ RatioFrom(W, v, p, q) ==
 (* query.rs::query_margin_ratio; FAIL when a sub-query fails.  The result  *)
 (* is a signed ratio; FAIL = -1 could collide with a genuine ratio of -1,  *)
 (* so the pair form is used.                                               *)
+RatioOver(W, v, p, q) ==
+  LET rm == RemainMargin(W, v, p, q.pnl) IN ~MulOK(rm.margin - rm.bad, W.eng.cfg.D)
+
 MarginRatio(W, v, t) ==
   LET p == W.eng.pos[v][t]
   IN IF p.size = 0 THEN [ok |-> TRUE, val |-> 0, over |-> FALSE]
      ELSE LET q == ChosenPnL(W, v, p)
           IN IF ~q.ok \/ q.notional = 0 THEN [ok |-> FALSE, val |-> 0, over |-> q.over]
+             ELSE IF RatioOver(W, v, p, q) THEN [ok |-> FALSE, val |-> 0, over |-> TRUE]
              ELSE [ok |-> TRUE, val |-> RatioFrom(W, v, p, q), over |-> FALSE]
 
 (* utils.rs::get_margin_ratio_calc_option(Oracle) *)
@@ -69,6 +76,7 @@ OracleRatio(W, v, t) ==
   IN IF p.size = 0 THEN [ok |-> TRUE, val |-> 0, over |-> FALSE]
      ELSE LET q == PnL(W, v, p, "oracle")
           IN IF ~q.ok \/ q.notional = 0 THEN [ok |-> FALSE, val |-> 0, over |-> q.over]
+             ELSE IF RatioOver(W, v, p, q) THEN [ok |-> FALSE, val |-> 0, over |-> TRUE]
              ELSE [ok |-> TRUE, val |-> RatioFrom(W, v, p, q), over |-> FALSE]
 
 (* the ratio `liquidate` compares with the maintenance ratio *)
